@@ -234,6 +234,38 @@ func (w *pmWorld) replTable(arg string) *lua.LTable {
 		}
 		t.RawSet(key, val)
 	}
+	// the replacement value is looked up like any Lua index operation (lstrlib add_value: lua_gettable), i.e. through
+	// __index: for two thirds of the tables some of the entries live only in a fallback reached through the metatable —
+	// as a table or as a function, alternately — which changes nothing in what the lookup yields
+	h := 0
+	for i := 0; i < len(arg); i++ {
+		h = h*31 + int(arg[i])
+	}
+	if h < 0 {
+		h = -h
+	}
+	if h%3 != 0 {
+		fallback := w.L.NewTable()
+		var moved []lua.LValue
+		i := 0
+		t.ForEach(func(k, v lua.LValue) {
+			if (h/3+i)%2 == 0 {
+				fallback.RawSet(k, v)
+				moved = append(moved, k)
+			}
+			i++
+		})
+		for _, k := range moved {
+			t.RawSet(k, lua.LNil)
+		}
+		mt := w.L.NewTable()
+		if h%2 == 0 {
+			mt.RawSetString("__index", fallback)
+		} else {
+			mt.RawSetString("__index", w.L.NewFunction(func(L *lua.LState) int { L.Push(fallback.RawGet(L.Get(2))); return 1 }))
+		}
+		w.L.SetMetatable(t, mt)
+	}
 	return t
 }
 
